@@ -17,6 +17,6 @@ Extraction "model.ml"
   all_algs alg_name alg_parse alg_parse_bytes filter_patch classify parse_dline di_from_bytes di_as_bytes di_insert di_empty
   hash_file_pre hash_patch_pre
   pkgpath_new pkgpath_eqb depend_new scan_read words trim
-  all_mentries to_filename from_filename read_metadata meta_empty meta_is_valid db_iter valid_pkgdir package_of
+  all_mentries to_filename from_filename read_metadata meta_empty meta_is_valid db_iter db_open_iter valid_pkgdir package_of
   entry_of_bytes plist_of_bytes scan_lines files files_prefixed install_cmds uninstall_cmds depends build_depends conflicts pkgdirs pkgrmdirs pl_pkgname pl_display is_preserve
   entry_bytes find_entry verify_size verify_checksum path_eqb pcomps.
